@@ -285,7 +285,7 @@ func (c16) Run(e *Env) {
 		}
 	}
 
-	nSteps := e.Range(4, 50)
+	nSteps := e.Range(4, 50*e.Depth())
 	cancelled := false
 	if faults && bb.Transport == "conn" && e.Chance(1, 15) {
 		// long-lived sender: the sender re-dials after every 100 streams on one connection, a path no
